@@ -90,7 +90,14 @@ func coverage(t *testing.T, st *vkit.Stats) []ctype {
 	if bad := notCodec(types); len(bad) > 0 {
 		t.Fatalf("VERIF-HARNESS-ERROR registry entries without MarshalMsg/UnmarshalMsg: %v", bad)
 	}
-	return types
+	verifyDead(t, st, types)
+	var live []ctype
+	for _, c := range types {
+		if deadTypes[c.key()] != "skip" {
+			live = append(live, c)
+		}
+	}
+	return live
 }
 
 func notCodec(types []ctype) []string {
@@ -103,6 +110,37 @@ func notCodec(types []ctype) []string {
 	return bad
 }
 
+// deadTypes: codec types that no code of the node references (verified against the sources at check time, see
+// verifyDead). They cannot be "values the contracts store"; what the check does about each is stated here.
+var deadTypes = map[string]string{
+	// embeds the interface TokenLockInterface, for which the tree has no implementation besides test mocks, so no
+	// value can be built; MarshalMsg dereferences the nil interface. Not generated at all.
+	"0chain.net/chaincore/tokenpool.ZcnLockingPool": "skip",
+	// "Deprecated" REST statistics shape; msgp generated an EMPTY codec for it (it cannot encode the map key type
+	// datastore.Key of its only field), so the field is exempt from the equality oracle; everything else applies.
+	"0chain.net/smartcontract/stakepool.UserPoolStat": "field:Pools",
+}
+
+func verifyDead(t *testing.T, st *vkit.Stats, types []ctype) {
+	var notes []string
+	for _, c := range types {
+		how, ok := deadTypes[c.key()]
+		if !ok {
+			continue
+		}
+		dir := strings.TrimPrefix(c.pkg, "0chain.net/")
+		refs, err := scan.References(scan.ModuleRoot(), dir, dir[strings.LastIndex(dir, "/")+1:], c.name)
+		if err != nil {
+			t.Fatalf("VERIF-HARNESS-ERROR reference scan: %v", err)
+		}
+		if len(refs) > 0 {
+			t.Fatalf("VERIF-HARNESS-ERROR %s is exempted as dead code (%s) but is referenced by %v: the exemption is void, remove it and triage", c.key(), how, refs)
+		}
+		notes = append(notes, c.key()+": unreferenced in the tree -> "+how)
+	}
+	st.Extra("types_exempted_as_dead_code", notes)
+}
+
 var (
 	poolType    = reflect.TypeOf(node.Pool{})
 	poolPtrType = reflect.TypeOf(&node.Pool{})
@@ -110,7 +148,22 @@ var (
 	wrapperType = reflect.TypeOf(entitywrapper.Wrapper{})
 )
 
+// findingPoolCodec: node.Pool.UnmarshalMsg decodes into a temporary and never copies Type / NodesMap into the receiver:
+// a decoded pool has lost its type and answers from an empty node map, and re-encodes as an empty miner pool. Affects
+// every entity that holds a pool (MagicBlock, minersc GlobalNode.PrevMagicBlock). While it is listed as an open finding
+// pools are generated as empty miner pools only (the one shape that survives).
+const findingPoolCodec = "pool-decode-drops-type-and-nodes"
+
+var safePools bool
+
+func isPoolClass(c ctype, diff string) bool {
+	return c.key() == "0chain.net/chaincore/node.Pool" || strings.Contains(diff, ".Miners.") || strings.Contains(diff, ".Sharders.")
+}
+
 func buildPool(t *rapid.T, g *valgen.Gen) *node.Pool {
+	if safePools {
+		return node.NewPool(node.NodeTypeMiner)
+	}
 	tp := node.NodeType(rapid.SampledFrom([]int{int(node.NodeTypeMiner), int(node.NodeTypeSharder), int(node.NodeTypeBlobber)}).Draw(t, "poolType"))
 	p := node.NewPool(tp)
 	n := rapid.IntRange(0, 3).Draw(t, "poolNodes")
@@ -183,6 +236,9 @@ func exempt(owner reflect.Type, f reflect.StructField) (bool, string) {
 	}
 	if !f.IsExported() && owner != wrapperType {
 		return true, "unexported field (msgp encodes exported fields only)"
+	}
+	if how := deadTypes[owner.PkgPath()+"."+owner.Name()]; how == "field:"+f.Name {
+		return true, "dead code with an empty generated codec (see deadTypes)"
 	}
 	switch owner {
 	case stateType:
@@ -268,6 +324,8 @@ func TestC08_RoundTrip(t *testing.T) {
 	types := coverage(t, st)
 	cmp := &valgen.Cmp{Ignore: func(owner reflect.Type, f reflect.StructField) bool { ex, _ := exempt(owner, f); return ex }}
 	perType := map[string]int64{}
+	safePools = st.IsKnown(findingPoolCodec)
+	probePoolCodec(t, st)
 	rapid.Check(t, func(t *rapid.T) {
 		c := types[rapid.IntRange(0, len(types)-1).Draw(t, "type")]
 		roundTrip(t, st, cmp, c, perType)
@@ -375,5 +433,25 @@ func TestC08_Survey(t *testing.T) {
 		t.Run(c.key(), func(t *testing.T) {
 			rapid.Check(t, func(t *rapid.T) { roundTrip(t, st, cmp, c, map[string]int64{}) })
 		})
+	}
+}
+
+// probePoolCodec records whether the listed pool finding still reproduces (fixed minimal value; never decides).
+func probePoolCodec(t *testing.T, st *vkit.Stats) {
+	if !st.IsKnown(findingPoolCodec) {
+		return
+	}
+	p := node.NewPool(node.NodeTypeSharder)
+	b1, err1 := p.MarshalMsg(nil)
+	q := &node.Pool{}
+	_, err2 := q.UnmarshalMsg(b1)
+	b2, err3 := q.MarshalMsg(nil)
+	if err1 != nil || err2 != nil || err3 != nil {
+		t.Fatalf("VERIF-HARNESS-ERROR pool probe: %v %v %v", err1, err2, err3)
+	}
+	if !bytes.Equal(b1, b2) {
+		st.Known(findingPoolCodec)
+	} else {
+		st.Class("known_finding_no_longer_reproduces:" + findingPoolCodec)
 	}
 }
